@@ -592,25 +592,52 @@ theorem bodyOK_iff (cfg : Cfg) (plan : Plan) (t : Nat) :
 /-- the only kinds of steps a `scan` consists of -/
 def Step.plain (c : Bool) (s : Step) : Prop := (∃ p, s = .point p) ∨ (∃ n, s = .alloc n) ∨ s = .write c
 
+theorem allocSteps_plain (c : Bool) (t k0 n : Nat) : ∀ s ∈ allocSteps t k0 n, s.plain c := by
+  intro s hs
+  unfold allocSteps at hs
+  obtain ⟨i, _, hi⟩ := List.mem_flatMap.mp hs
+  simp only [List.mem_cons, List.not_mem_nil, or_false] at hi
+  rcases hi with rfl | rfl
+  · exact Or.inl ⟨_, rfl⟩
+  · exact Or.inr (Or.inl ⟨_, rfl⟩)
+
+theorem filterSteps_plain (cfg : Cfg) (t : Nat) : ∀ s ∈ filterSteps cfg t, s.plain cfg.copies := by
+  intro s hs
+  unfold filterSteps at hs
+  rcases List.mem_append.mp hs with h | h
+  · split at h
+    · simp only [List.mem_cons, List.not_mem_nil, or_false] at h
+      subst h; exact Or.inl ⟨_, rfl⟩
+    · simp at h
+  · split at h
+    · simp only [List.mem_cons, List.not_mem_nil, or_false] at h
+      subst h; exact Or.inl ⟨_, rfl⟩
+    · simp at h
+
 theorem preSteps_plain (cfg : Cfg) (t : Nat) : ∀ s ∈ preSteps cfg t, s.plain cfg.copies := by
   intro s hs
   unfold preSteps at hs
   rcases List.mem_append.mp hs with h | h
-  · simp only [List.mem_cons, List.not_mem_nil, or_false] at h
-    rcases h with rfl | rfl | rfl | rfl | rfl | rfl
-    · exact Or.inl ⟨_, rfl⟩
-    · exact Or.inl ⟨_, rfl⟩
-    · exact Or.inr (Or.inr rfl)
-    · exact Or.inr (Or.inl ⟨_, rfl⟩)
-    · exact Or.inl ⟨_, rfl⟩
-    · exact Or.inr (Or.inl ⟨_, rfl⟩)
+  · rcases List.mem_append.mp h with h | h
+    · rcases List.mem_cons.mp h with rfl | h
+      · exact Or.inl ⟨_, rfl⟩
+      · exact filterSteps_plain cfg t s h
+    · rcases List.mem_append.mp h with h | h
+      · rcases List.mem_append.mp h with h | h
+        · simp only [List.mem_cons, List.not_mem_nil, or_false] at h
+          rcases h with rfl | rfl
+          · exact Or.inl ⟨_, rfl⟩
+          · exact Or.inr (Or.inr rfl)
+        · exact allocSteps_plain _ _ _ _ s h
+      · rcases List.mem_cons.mp h with rfl | h
+        · exact Or.inl ⟨_, rfl⟩
+        · exact allocSteps_plain _ _ _ _ s h
   · split at h
     · obtain ⟨k, _, hk⟩ := List.mem_flatMap.mp h
       unfold initSteps at hk
-      simp only [List.mem_cons, List.not_mem_nil, or_false] at hk
-      rcases hk with rfl | rfl
+      rcases List.mem_cons.mp hk with rfl | hk
       · exact Or.inl ⟨_, rfl⟩
-      · exact Or.inr (Or.inl ⟨_, rfl⟩)
+      · exact allocSteps_plain _ _ _ _ s hk
     · simp at h
 
 theorem jobSteps_plain (cfg : Cfg) (t j : Nat) : ∀ s ∈ jobSteps cfg t j, s.plain cfg.copies := by
@@ -634,10 +661,12 @@ theorem postSteps_plain (cfg : Cfg) (t : Nat) : ∀ s ∈ postSteps cfg t, s.pla
   · rcases List.mem_append.mp hs with h | h
     · obtain ⟨k, _, hk⟩ := List.mem_flatMap.mp h
       unfold postJobSteps at hk
-      simp only [List.mem_cons, List.not_mem_nil, or_false] at hk
-      rcases hk with rfl | rfl
-      · exact Or.inl ⟨_, rfl⟩
-      · exact Or.inr (Or.inl ⟨_, rfl⟩)
+      rcases List.mem_append.mp hk with hk | hk
+      · rcases List.mem_cons.mp hk with rfl | hk
+        · exact Or.inl ⟨_, rfl⟩
+        · exact allocSteps_plain _ _ _ _ s hk
+      · simp only [List.mem_cons, List.not_mem_nil, or_false] at hk
+        subst hk; exact Or.inl ⟨_, rfl⟩
     · simp only [List.mem_cons, List.not_mem_nil, or_false] at h
       subst h; exact Or.inl ⟨_, rfl⟩
   · simp at hs
